@@ -44,14 +44,14 @@ def low(x):
 class MetaOb(TemplateObligation):
     twin_enabled = False
 
-    def __init__(self, name, sql, build, length=2):
-        self.name, self.sql, self.build, self.length = name, sql, build, length
+    def __init__(self, name, sql, build, length=2, dialect="ansi"):
+        self.name, self.sql, self.build, self.length, self.dialect = name, sql, build, length, dialect
         self.stmts = [sql] if isinstance(sql, str) else list(sql)
-        self.key = "%s/len%d" % (name, length)
+        self.key = "%s/len%d%s" % (name, length, "" if dialect == "ansi" else "@" + dialect)
 
     def prepare(self):
-        self.script = LiftedScript(self.stmts, "ansi")
-        self.script0 = LiftedScript(self.stmts, "ansi")
+        self.script = LiftedScript(self.stmts, self.dialect)
+        self.script0 = LiftedScript(self.stmts, self.dialect)
 
     def body(self):
         from sqllineage.core.metadata.dummy import DummyMetaDataProvider
@@ -85,8 +85,8 @@ class MetaOb(TemplateObligation):
     def replay(self, conc, verdict_ok):
         from lx import replay as R
 
-        r1 = R.run_real(conc["sql"], "ansi", metadata=conc["metadata"])
-        r0 = R.run_real(conc["sql"], "ansi")
+        r1 = R.run_real(conc["sql"], self.dialect, metadata=conc["metadata"])
+        r0 = R.run_real(conc["sql"], self.dialect)
         if not (r1.get("ok") and r0.get("ok")):
             return {"real_ok": False, "lifted_matches": False, "detail": {"r1": r1.get("error"), "m": r1.get("message")}}
         tables_same = all(r1[k] == r0[k] for k in ("sources", "targets", "intermediates"))
@@ -344,6 +344,21 @@ TEMPLATES = {
     "unknown_tables": ("INSERT INTO s.w SELECT a.ca, b.cb, cc FROM s.t1 AS a JOIN s.t2 AS b ON a.id = b.id", b_unknown_everything, None),
     "insert_positions_union": ("INSERT INTO s.w SELECT ca FROM s.t1 UNION ALL SELECT cb FROM s.t2", b_insert_positions_union, None),
     "ctas_target_metadata": ("CREATE TABLE s.w AS SELECT ca FROM s.t1", b_ctas_ignores_target_metadata, None),
+    # the query of an INSERT may be parenthesised (a bracketed child of the statement, like a column list), or start with WITH
+    "insert_positions_paren": ("INSERT INTO s.w (SELECT ca, cb FROM s.t1)", b_insert_positions, None),
+    "insert_positions_paren_union": ("INSERT INTO s.w (SELECT ca FROM s.t1 UNION ALL SELECT cb FROM s.t2)", b_insert_positions_union, None),
+    "insert_explicit_paren": ("INSERT INTO s.w (zqkx, zqky) (SELECT ca, cb FROM s.t1)", b_insert_explicit_list, None),
+    "insert_positions_cte": ("INSERT INTO s.w WITH c AS (SELECT ca, cb FROM s.t1) SELECT ca, cb FROM c", b_insert_positions, None),
+    "view_target_metadata": ("CREATE VIEW s.w AS SELECT ca FROM s.t1", b_ctas_ignores_target_metadata, None),
+}
+# statement types differ between grammars (create_table_as_statement under the postgres family, create_table_as_select_statement
+# under impala, INSERT OVERWRITE under the hive family): the metadata rules are the same under each of them
+DIALECT_VARIANTS = {
+    "ctas_target_metadata": ["postgres", "redshift", "impala", "sparksql", "snowflake", "tsql"],
+    "insert_positions": ["postgres", "sparksql", "tsql", "mysql"],
+    "insert_explicit_list": ["postgres", "sparksql", "tsql"],
+    "star_single": ["postgres", "sparksql"],
+    "insert_positions_paren": ["postgres", "sparksql"],
 }
 
 
@@ -403,6 +418,11 @@ def obligations(tier, seed):
     for name, (sql, build, cl) in TEMPLATES.items():
         for ln in lens:
             ob = MetaOb(name, sql, build, ln)
+            if cl:
+                ob.classify = cl.__get__(ob)
+            obs.append(ob)
+        for d in DIALECT_VARIANTS.get(name, []):
+            ob = MetaOb(name, sql, build, 2, dialect=d)
             if cl:
                 ob.classify = cl.__get__(ob)
             obs.append(ob)
